@@ -1,5 +1,272 @@
+//! C03 — interval discipline and honest status. Direct predicates on Solution and on the
+//! probe's call log, over a randomised + adversarial option sweep.
+
+use super::common::*;
 use crate::ctx::{Ctx, Meta};
+use crate::probe::*;
+use crate::problems::Problem;
 use crate::report::Report;
+use crate::rng::Rng;
+use crate::util::{all_finite, par_for};
+use ivp::prelude::*;
+use serde_json::json;
+
+/// class discriminator of a scenario for violation signatures
+fn class_of(scn: &Scn) -> String {
+    let span = (scn.xend - scn.x0).abs();
+    let mut c: Vec<&str> = Vec::new();
+    if !scn.xend.is_finite() {
+        c.push("inf_xend");
+    }
+    if span <= 1.0e-12 * 1.0000001 {
+        c.push("span_le_1e-12");
+    }
+    if let Some(h) = scn.first_step {
+        if h.abs() >= span {
+            c.push("first_step_ge_span");
+        } else if h * (scn.xend - scn.x0) < 0.0 {
+            c.push("first_step_wrong_sign");
+        } else {
+            c.push("first_step");
+        }
+    }
+    if let Some(m) = scn.max_step {
+        if m > span {
+            c.push("max_step_gt_span");
+        }
+    }
+    if scn.t_eval.is_some() {
+        c.push("t_eval");
+    }
+    if scn.events.iter().any(|e| e.terminal.is_some()) {
+        c.push("terminal");
+    }
+    if scn.max_steps.is_some() {
+        c.push("budget");
+    }
+    if scn.x0.abs() >= 1e5 {
+        c.push("huge_x0");
+    }
+    if c.is_empty() {
+        "plain".into()
+    } else {
+        c.join("+")
+    }
+}
+
+pub fn check_run(rep: &mut Report, p: &dyn Problem, scn: &Scn, res: &RunRes, case_id: &str) {
+    let m = mname(scn.method);
+    let cls = class_of(scn);
+    let case = || scn.describe(p);
+    let dir = scn.dir();
+    let n = scn.y0.len();
+    let sig = |clause: &str| format!("C03/{}/{}/{}", clause, m, cls);
+    match &res.out {
+        Outcome::Budget => {
+            rep.inconclusive("evaluation_budget_exhausted");
+            return;
+        }
+        Outcome::Panic(msg) => {
+            rep.violate(&sig("no_panic"), format!("solve_ivp panicked: {}", msg), case_id, case());
+            return;
+        }
+        Outcome::Err(e) => {
+            // configuration errors are honest refusals (e.g. RK4 with a wrong-signed step)
+            rep.count("config_errors_returned", 1);
+            rep.count(&format!("err_{}", e.split('(').nth(2).unwrap_or("other").split(' ').next().unwrap_or("other")), 1);
+            return;
+        }
+        Outcome::Ok(_) => {}
+    }
+    let sol = res.out.sol().unwrap();
+    rep.count(&format!("status_{:?}", sol.status), 1);
+    rep.count("samples_checked", sol.t.len() as u64);
+    let rt = rt_slack(scn.method, scn.x0, scn.xend, sol.nstep.max(sol.t.len()));
+
+    // shapes
+    if sol.t.len() != sol.y.len() {
+        rep.violate(&sig("len_t_eq_len_y"), format!("len(t)={} len(y)={}", sol.t.len(), sol.y.len()), case_id, case());
+        return;
+    }
+    if let Some(bad) = sol.y.iter().position(|v| v.len() != n) {
+        rep.violate(&sig("sample_dimension"), format!("sample {} has dimension {} instead of {}", bad, sol.y[bad].len(), n), case_id, case());
+    }
+    // start
+    if scn.t_eval.is_none() {
+        if sol.t.is_empty() || sol.t[0].to_bits() != scn.x0.to_bits() {
+            rep.violate(&sig("starts_at_x0"), format!("t[0] = {:?}, x0 = {}", sol.t.first(), scn.x0), case_id, case());
+        }
+    }
+    // monotone
+    let terminal_hit = terminal_reached(scn, sol);
+    for i in 1..sol.t.len() {
+        let d = (sol.t[i] - sol.t[i - 1]) * dir;
+        let last_is_event = terminal_hit && i == sol.t.len() - 1;
+        if !(d > 0.0) && !(last_is_event && d == 0.0) {
+            rep.violate(
+                &sig("strictly_monotone"),
+                format!("t[{}]={:e} then t[{}]={:e} (direction {})", i - 1, sol.t[i - 1], i, sol.t[i], dir),
+                case_id,
+                case(),
+            );
+            break;
+        }
+    }
+    // never past xend, never before x0
+    for (i, &t) in sol.t.iter().enumerate() {
+        if (t - scn.xend) * dir > rt {
+            rep.violate(&sig("never_past_xend"), format!("t[{}]={:e} beyond xend={:e} by {:e}", i, t, scn.xend, (t - scn.xend).abs()), case_id, case());
+            break;
+        }
+        if (t - scn.x0) * dir < -rt {
+            rep.violate(&sig("never_before_x0"), format!("t[{}]={:e} on the wrong side of x0={:e}", i, t, scn.x0), case_id, case());
+            break;
+        }
+    }
+    // evaluations inside the closed interval
+    if res.log.n_ode + res.log.n_events + res.log.n_jac > 0 {
+        let (lo, hi) = if dir > 0.0 { (scn.x0, scn.xend) } else { (scn.xend, scn.x0) };
+        if res.log.tmin < lo - rt || res.log.tmax > hi + rt {
+            rep.violate(
+                &sig("eval_inside_interval"),
+                format!("f/events/jac evaluated at t in [{:e}, {:e}] but the interval is [{:e}, {:e}] (slack {:e})", res.log.tmin, res.log.tmax, lo, hi, rt),
+                case_id,
+                case(),
+            );
+        }
+        rep.count("runs_with_call_log_checked", 1);
+    }
+    // status
+    match sol.status {
+        Status::Success => {
+            if terminal_hit {
+                rep.violate(&sig("status_honest"), "a terminal event reached its count but status is Success".into(), case_id, case());
+            }
+            if scn.t_eval.is_none() {
+                match sol.t.last() {
+                    Some(&tl) if (tl - scn.xend).abs() <= rt => {}
+                    other => rep.violate(&sig("last_sample_is_xend"), format!("status Success but last sample is {:?}, xend = {:e}", other, scn.xend), case_id, case()),
+                }
+            } else {
+                // the integration itself must have reached xend
+                let covered = res.log.far >= (scn.xend - scn.x0).abs() - rt;
+                if !covered {
+                    rep.violate(&sig("success_covers_interval"), format!("status Success but f was never evaluated beyond |t-x0| = {:e} of {:e}", res.log.far, (scn.xend - scn.x0).abs()), case_id, case());
+                }
+            }
+            if scn.method != Method::RK4 && !sol.y.iter().all(|v| all_finite(v)) {
+                rep.violate(&sig("success_nonfinite"), "status Success with non-finite state values".into(), case_id, case());
+            }
+        }
+        Status::UserInterrupt => {
+            if !terminal_hit {
+                rep.violate(&sig("status_honest"), "status UserInterrupt but no terminal event reached its count".into(), case_id, case());
+            }
+        }
+        other => {
+            if terminal_hit {
+                rep.violate(&sig("status_honest"), format!("terminal event reached its count but status is {:?}", other), case_id, case());
+            }
+            if scn.t_eval.is_none() && scn.xend.is_finite() {
+                if let Some(&tl) = sol.t.last() {
+                    if (tl - scn.xend).abs() <= rt && sol.t.len() > 1 {
+                        rep.violate(&sig("status_honest"), format!("status {:?} although the last sample is xend to rounding", other), case_id, case());
+                    }
+                }
+            }
+        }
+    }
+}
+
 pub fn run(ctx: &Ctx) -> (Report, Meta) {
-    (Report::new(&ctx.prop), Meta::new("not built yet"))
+    let meta = Meta::new(
+        "randomised option sweep on bounded problems (oscillators, Lotka-Volterra, pendulum, linear rotation, zero RHS, quadrature): 6 methods x both directions x x0 in {0, O(1), 1e-3, +-1e6} x spans 1e-12..1e8 and infinite xend with a terminal event x first_step {none, tiny, span/3, span, 5 span, wrong sign} x max_step {none, inf, span/4, span/7, 3 span} x max_steps x t_eval x dense_output x events (terminal or not); plus a deterministic adversarial list (steps dividing the interval exactly, first_step == span, spans of 1e-12..1e-9). Every run is a distinct configuration (distinct by hash of the scenario).",
+    )
+    .assume("rounding slack R_t = 4 eps max(|x0|,|xend|) (adaptive) / (nstep+4) eps max(..) (RK4)")
+    .assume("configuration errors (Err) are honest refusals, not violations")
+    .floor("runs_with_call_log_checked", 500)
+    .floor("status_Success", 300)
+    .floor("status_UserInterrupt", 20);
+    let g = GenOpts {
+        allow_tiny_span: true,
+        allow_huge: true,
+        allow_inf: true,
+        allow_first_step: true,
+        allow_weird_first_step: true,
+        allow_max_step: true,
+        allow_max_steps: true,
+        allow_t_eval: true,
+        allow_events: true,
+        allow_terminal: true,
+        ..Default::default()
+    };
+    let nrand = ctx.size(6_000, 400_000);
+    let mut rep = par_for(nrand, "C03", |i, rep| {
+        let case_id = format!("sweep/{}", i);
+        if !ctx.want(&case_id) {
+            return;
+        }
+        let mut rng = Rng::derive(ctx.seed, 3, i as u64);
+        let (prob, scn) = gen_case(&mut rng, &g);
+        let res = run_solve(&prob, &scn, false, false);
+        rep.eval();
+        rep.nontrivial(scn_hash(&scn, &prob));
+        check_run(rep, &prob, &scn, &res, &case_id);
+        if i % 1499 == 0 {
+            rep.sample(json!({"scenario": scn.describe(&prob), "outcome": res.out.tag(), "n_samples": res.out.sol().map(|s| s.t.len())}));
+        }
+    });
+
+    // deterministic adversarial list
+    let mut adv: Vec<(crate::problems::Simple, Scn)> = Vec::new();
+    for &m in METHODS.iter() {
+        for &dir in &[1.0, -1.0] {
+            for &x0 in &[0.0, 1.0, -2.5] {
+                let p = crate::problems::Simple::Osc { d: 0.0, a: 0.5, w: 1.3 };
+                let y0 = vec![1.0, 0.2];
+                // exact division of the interval by max_step / first_step
+                for &(span, k) in &[(1.0, 4.0), (2.0, 8.0), (0.75, 3.0), (1.0, 10.0), (0.7, 7.0)] {
+                    let mut s = Scn::new(m, x0, x0 + dir * span, y0.clone());
+                    if m == Method::RK4 {
+                        s.first_step = Some(dir * span / k);
+                    } else {
+                        s.max_step = Some(span / k);
+                        s.first_step = Some(dir * span / k);
+                    }
+                    adv.push((p.clone(), s));
+                }
+                // first_step == span, > span, non-dividing
+                for &f in &[1.0, 1.5, 0.3, 0.45, 0.999999] {
+                    let mut s = Scn::new(m, x0, x0 + dir * 1.0, y0.clone());
+                    s.first_step = Some(dir * f);
+                    adv.push((p.clone(), s));
+                }
+                // tiny spans
+                for &span in &[1e-12, 3e-12, 1e-11, 1e-10, 1e-9, 1e-7, 1e-6] {
+                    let s = Scn::new(m, x0, x0 + dir * span, y0.clone());
+                    adv.push((p.clone(), s.clone()));
+                    let mut s2 = s.clone();
+                    s2.max_step = Some(f64::INFINITY);
+                    if m != Method::RK4 {
+                        adv.push((p.clone(), s2));
+                    }
+                }
+            }
+        }
+    }
+    let adv_ref = &adv;
+    let rep2 = par_for(adv.len(), "C03", |i, rep| {
+        let case_id = format!("adv/{}", i);
+        if !ctx.want(&case_id) {
+            return;
+        }
+        let (prob, scn) = &adv_ref[i];
+        let res = run_solve(prob, scn, false, false);
+        rep.eval();
+        rep.count("adversarial_cases", 1);
+        rep.nontrivial(scn_hash(scn, prob));
+        check_run(rep, prob, scn, &res, &case_id);
+    });
+    rep.merge(rep2);
+    (rep, meta)
 }
